@@ -265,9 +265,10 @@ Section Model.
     let s'' := add_name s' (print_rty (render (qual_of m) (snd x))) in
     (r', s'', vs ++ [{| vname := suggest s'' (var_name (lname (fst x)) (snd x)); vty := snd x; vimps := m |}]).
 
-  (* a fresh method scope (seeded with the registry's qualifiers AT THAT TIME), then AddVar for each *)
-  Definition run_group (r : registry) (xs : items ty) : vstate :=
-    fold_left add_var xs (r, new_scope r, []).
+  (* a fresh method scope (seeded with the registry's qualifiers AT THAT TIME, then with the
+     names [init]), then AddVar for each *)
+  Definition run_group (r : registry) (init : list str) (xs : items ty) : vstate :=
+    fold_left add_var xs (r, fold_left add_name init (new_scope r), []).
 
   (* MethodScope.ResolveVariableNameCollisions *)
   Fixpoint resolve_names (s : scope) (vs : list var_) : scope * list var_ :=
@@ -290,9 +291,11 @@ Section Model.
     dscope : scope                 (* Method.Scope as the template sees it *)
   }.
 
-  (* methodData, before collision resolution *)
-  Definition method_data (r : registry) (m : str * sig) : registry * mdata :=
-    let '(r', s, vs) := run_group r (sparams (snd m) ++ sresults (snd m)) in
+  (* methodData, before collision resolution.  [tpn]: the names of the interface's type
+     parameters, which the receiver of every generated method declares (FIXED:
+     fixes/c14-tparam-names-visible.diff makes them visible in the method scope) *)
+  Definition method_data (tpn : list str) (r : registry) (m : str * sig) : registry * mdata :=
+    let '(r', s, vs) := run_group r tpn (sparams (snd m) ++ sresults (snd m)) in
     let np := length (sparams (snd m)) in
     (r', {| dname := fst m; dparams := firstn np vs; dvariadic := svariadic (snd m);
             dreturns := skipn np vs; dscope0 := s; dscope := s |}).
@@ -303,11 +306,11 @@ Section Model.
     {| dname := dname d; dparams := firstn np vs; dvariadic := dvariadic d; dreturns := skipn np vs;
        dscope0 := dscope0 d; dscope := s' |}.
 
-  Fixpoint methods_data (r : registry) (ms : list (str * sig)) : registry * list mdata :=
+  Fixpoint methods_data (tpn : list str) (r : registry) (ms : list (str * sig)) : registry * list mdata :=
     match ms with
     | [] => (r, [])
-    | m :: rest => let '(r1, d) := method_data r m in
-                   let '(r2, ds) := methods_data r1 rest in (r2, d :: ds)
+    | m :: rest => let '(r1, d) := method_data tpn r m in
+                   let '(r2, ds) := methods_data tpn r1 rest in (r2, d :: ds)
     end.
 
   (* the interface as handed to Generate: name, struct name, type parameters with their
@@ -320,9 +323,9 @@ Section Model.
   (* one iteration of the loop in Generate: all methods, then collision resolution for
      every method, then the type parameters (a fresh scope, no collision resolution) *)
   Definition gen_iface (r : registry) (i : iface) : registry * idata :=
-    let '(r1, ds) := methods_data r (if_methods i) in
+    let '(r1, ds) := methods_data (map (fun it => lname (fst it)) (if_tparams i)) r (if_methods i) in
     let ds' := map resolve_collisions ds in
-    let '(r2, _, tps) := run_group r1 (if_tparams i) in
+    let '(r2, _, tps) := run_group r1 [] (if_tparams i) in
     (r2, {| i_name := if_name i; i_struct := if_struct i; i_tparams := tps; i_methods := ds' |}).
 
   Fixpoint gen_ifaces (r : registry) (is : list iface) : registry * list idata :=
